@@ -1,5 +1,6 @@
 import SLE.Driver.Disasm
 import SLE.Driver.Containers
+import SLE.Driver.Value
 /-! `sle_driver`: reads `family\tpayload\timpl_answer`, prints `model_answer\toracle_verdict`. -/
 open SLE.Driver
 
@@ -10,6 +11,8 @@ def handleLine (line : String) : String :=
       | "disasm" => Disasm.handle payload impl
       | "vmap" => Containers.handleVmap payload impl
       | "ds" => Containers.handleDs payload impl
+      | "word" => Value.handleWord payload impl
+      | "fold" => Value.handleFold payload impl
       | _ => ("unknown-family", "ok")
     m ++ "\t" ++ o
   | _ => "bad-line\tok"
